@@ -368,6 +368,21 @@ def json_module(A):
             'integer parsing (no other hook that could make a valid JSON value fail to decode)',
             A.site(loads), key='json-extra-hooks', detail=sorted(hooks),
             behaviour='a JSON float/object/constant that is valid JSON comes back as raw text')
+    # ... on every path on which the caller did not bring a parse_int of its own
+    lps = [p for p in A.paths(A.enum(follow_handlers=False), loads) if p.outcome == 'return']
+    for p in lps:
+        from sa.expr import atom
+        ga = {atom(e.expr, e.pol) for e in p.events if e.kind == 'guard'}
+        own = ("'parse_int' in kwargs", True) in ga
+        wrote = any(e.kind == 'write' and "kwargs['parse_int']" in txt(e.target)
+                    for e in p.events) or any(
+            e.kind == 'call' and ("setdefault('parse_int'" in txt(e.expr) or
+                                  'parse_int=' in txt(e.expr)) for e in p.events)
+        if not own:
+            A.check(wrote, 'C01.safe-int', 'loads() without a caller-supplied parse_int parses '
+                    'integers through the bounded hook', A.site(loads), key='json-parse-int-path',
+                    detail=describe(p),
+                    behaviour='a huge integer literal makes decode() burn CPU (no bound)')
     A.check(bool(installs), 'C01.safe-int', 'engineio.json.loads installs a bounded parse_int',
             A.site(loads), key='json-parse-int',
             behaviour='a huge integer literal makes decode() burn CPU (no bound)')
@@ -375,8 +390,21 @@ def json_module(A):
         sf = jm.functions[installs]
         en = A.enum()
         ps = A.paths(en, sf)
+        def _too_long(p):
+            # the refusing path is the one on which len(s) exceeds a (positive) bound
+            from sa.expr import int_ordering
+            for e in p.events:
+                if e.kind == 'guard' and 'len(s)' in txt(e.expr):
+                    f = int_ordering(unawait(e.expr), e.pol, {'len(s)': ('L', 0)})
+                    if f is not None and f[0] == {'L': 1} and f[1] < 0:
+                        return True
+            return False
         bounded = [p for p in ps if p.outcome == 'raise' and p.cls == 'ValueError' and
-                   any('len(s)' in g for g in guards_text(p))]
+                   _too_long(p)]
+        A.check(not any(_too_long(p) for p in ps if p.outcome == 'return'), 'C01.safe-int',
+                '%s never parses a literal it found over-long' % installs, A.site(sf),
+                key='safe-int-polarity',
+                behaviour='short integers are refused and over-long ones parsed')
         A.check(bool(bounded), 'C01.safe-int',
                 '%s raises ValueError (the class decode() catches) for over-long literals'
                 % installs, A.site(sf), key='safe-int-raise', detail=[describe(p) for p in ps][:3],
